@@ -68,7 +68,14 @@ def get_chunk_dtype_transformer(input_dtype, output_dtype, warn=True):
     def chunk_transformer(chunk, preserve_input=True):
         assert np.can_cast(chunk.dtype, input_dtype, casting="equiv")
         if round_to_nearest or clip_values:
-            chunk = np.array(chunk, dtype=work_dtype, copy=preserve_input)
+            if preserve_input:
+                chunk = np.array(chunk, dtype=work_dtype, copy=True)
+            else:
+                # copy only if needed (NumPy 2 raises an error for copy=False
+                # when a copy cannot be avoided)
+                chunk = np.asarray(chunk, dtype=work_dtype)
+                if not chunk.flags.writeable:
+                    chunk = chunk.copy()
             if round_to_nearest:
                 np.rint(chunk, out=chunk)
             if clip_values:
